@@ -8,11 +8,18 @@ Blk(b, o) == [b |-> b, o |-> o]
 
 ShapesOne   == { <<S0, Blk(1, 0)>> }
 ShapesTwo   == { <<S0, Blk(1, 1)>> }
+ShapesThor  == { <<S0, Blk(1, 1)>>, <<S0, Blk(2, 0), S0>> }
 ShapesTiny  == { <<S0, Blk(1, 1)>>, <<S0, S0>> }
 ShapesSmall == { <<S0, S0, S0>>, <<S0, Blk(2, 0), S0>>, <<Blk(1, 1), S0>> }
 ShapesFull  == ShapesSmall \cup
                { <<S0, Blk(2, 1), S0>>, <<Blk(2, 0), Blk(1, 1)>>, <<S0, S0, Blk(1, 0), S0>>, <<Blk(2, 2), S0>>,
                  <<S0>>, <<Blk(1, 0)>> }
+
+(* focused generation: only the alignment-sensitive mutations, on trees whose *)
+(* compound statement has two blocks of >= 2 statements                       *)
+ShapesSib == { <<Blk(2, 2), S0>>, <<Blk(2, 3)>> }
+NextSib   == Mark \/ SiblingCopy \/ ForeignPair \/ ReconcileOk \/ ReconcileInvalid
+SpecSib   == Init /\ [][NextSib]_vars
 
 (* generation (G): every complete history is printed once; with hist part of *)
 (* the state (no VIEW) distinct histories are distinct states                 *)
